@@ -144,6 +144,11 @@ def single_base_on_insertion_point(c: dict) -> bool:
 MATCHERS = {'single_base_on_insertion_point': single_base_on_insertion_point}
 
 
+def touching(recs) -> bool:
+    recs = sorted(recs, key=lambda r: r['pos'])
+    return any(b['pos'] <= a['pos'] + len(a['ref']) for a, b in zip(recs, recs[1:]))
+
+
 def make_designs(ctx: Ctx, n: int, focus_over: dict | None = None):
     out = []
     tries = 0
@@ -151,7 +156,8 @@ def make_designs(ctx: Ctx, n: int, focus_over: dict | None = None):
         tries += 1
         focus = {'p_bg': 1.0, 'p_mask': 0.25, 'allow_junction_pam': False, 'p_gtf': 0.85, 'p_custom': 0.5, 'p_pam': 0.6,
                  'custom_kinds': ['snv', 'mnv', 'ins', 'del', 'delins_u'], 'bg_kinds': ['snv', 'snv', 'ins', 'ins', 'del', 'del', 'mnv'],
-                 'bg_upstream': ctx.rng.random() < 0.7, 'p_pam_edge': 0.3, 'n_pam': [1, 2, 3, 4], 'bg_on_custom': 0.4}
+                 'bg_upstream': ctx.rng.random() < 0.7, 'p_pam_edge': 0.3, 'n_pam': [1, 2, 3, 4], 'bg_on_custom': 0.4,
+                 'bg_adjacent': 0.35}
         focus.update(focus_over or {})
         d = gen.gen_sge(ctx.rng, focus)
         if not d.get('bg'):
@@ -159,7 +165,9 @@ def make_designs(ctx: Ctx, n: int, focus_over: dict | None = None):
         lifted = bg.lift_design(d)
         if lifted is None:
             continue
-        if ctx.rng.random() < 0.5:      # records of the background VCF in any order (a plain-text VCF is read in file order)
+        # records of the background VCF in any order (a plain-text VCF is read in file order) - except when two records
+        # follow each other without a gap: their relative order is then the one a position-sorted VCF has
+        if ctx.rng.random() < 0.5 and not touching(d['bg']):
             ctx.rng.shuffle(d['bg'])
         out.append((d, lifted[0], lifted[1]))
     return out
@@ -187,7 +195,8 @@ def background_stage(ctx: Ctx, n: int, accept, shuffle_bg: bool = False, focus_o
     triples = make_designs(sub, n, focus_over)
     if shuffle_bg:      # records of the background VCF in any order (a plain-text VCF is read in file order)
         for d, d2, L in triples:
-            ctx.rng.shuffle(d['bg'])
+            if not touching(d['bg']):
+                ctx.rng.shuffle(d['bg'])
     res = pool_map(run_pair, [(d, d2) for d, d2, L in triples], chunksize=2)
     for (d, d2, L), (_, r, r2) in zip(triples, res):
         compare(sub, d, d2, L, r, r2)
